@@ -704,7 +704,35 @@ fn variants_c11(c: &Case, thorough: bool) -> Vec<Case> {
         if b % 2 == 1 {
             x.cfg.threads = if x.cfg.threads <= 1 { 2 } else { 1 };
         }
-        x.profile = format!("faults:T block={}", b);
+        // every other variant arms the time-out after `init`, through `Simulation::set_timeout`
+        x.cfg.timeout_late = rng.pct(40);
+        x.profile = format!("faults:T block={}{}", b, if x.cfg.timeout_late { " late" } else { "" });
+        out.push(x);
+    }
+    // T (overrun): a model keeps the first step after the time-out was armed busy until the
+    // timed wait of the executor elapses; the time-out is armed by `SimInit::set_timeout`
+    // (the overrunning step is `init`) or by `Simulation::set_timeout` (it is a `process_event`).
+    for late in [false, true] {
+        let cands: Vec<usize> = (0..n).filter(|&i| c.nodes[i].registered && !c.nodes[i].dead && !c.nodes[i].late_mailbox && c.nodes[i].parent.is_none()).collect();
+        if cands.is_empty() {
+            break;
+        }
+        let i = cands[rng.usize(cands.len())];
+        let mut x = c.clone();
+        x.cfg.timeout_set = true;
+        x.cfg.timeout_late = late;
+        x.cfg.timeout_at_block = Some(0);
+        if rng.pct(50) {
+            x.cfg.threads = if x.cfg.threads <= 1 { 2 + rng.below(3) as u8 } else { 1 };
+        }
+        x.nodes[i].init.insert(0, Op::HoldUntilTimeout);
+        for h in x.nodes[i].on.iter_mut() {
+            h.insert(0, Op::HoldUntilTimeout);
+        }
+        if late {
+            x.script.insert(0, Cmd::ProcessEvent { target: i as u16, kind: 0 });
+        }
+        x.profile = format!("faults:T overrun node={}{}", i, if late { " late" } else { "" });
         out.push(x);
     }
     // K: the j-th synchronisation reports a lag above the tolerance.
